@@ -253,7 +253,8 @@ SgEdDecode(C, enc, w) ==
        y == SgLeInt([enc EXCEPT ![b] = @ % 128])
        uv == SgEdUV(C, y)
        bad(why) == [st |-> "fail", why |-> why, pt |-> EC!EcNeutral(C)] IN
-   IF ~BN!BnLt(y, C.p) THEN bad("ordinate not below p")
+   IF ~SgEdIs25519(C) /\ enc[b] % 128 # 0 THEN bad("Ed448 final octet with low bits set")                 \* y >= 2^448 > p
+   ELSE IF ~BN!BnLt(y, C.p) THEN bad("ordinate not below p")
    ELSE IF ~BN!BnIsNat(w.x) \/ ~BN!BnLt(w.x, C.p) THEN [st |-> "witness", why |-> "abscissa", pt |-> EC!EcNeutral(C)]
    ELSE IF w.has THEN
         (IF EC!EcMulM(C, uv[2], EC!EcMulM(C, w.x, w.x)) # uv[1] THEN [st |-> "witness", why |-> "abscissa", pt |-> EC!EcNeutral(C)]
@@ -270,7 +271,8 @@ SgEdStructure(C, sig, wR) ==
        d == SgEdDecode(C, SubSeq(sig, 1, b), wR) IN
    IF ~BN!BnLt(S, C.n) THEN [v |-> "invalid", why |-> (IF S = C.n THEN "S equal to the group order" ELSE "S not below the group order"), R |-> d.pt, S |-> S]
    ELSE IF d.st = "witness" THEN [v |-> "witness", why |-> "decoding of R: " \o d.why, R |-> d.pt, S |-> S]
-   ELSE IF d.st = "fail" THEN [v |-> "invalid", why |-> "non-canonical or undecodable R (" \o d.why \o ")", R |-> d.pt, S |-> S]
+   ELSE IF d.st = "fail" THEN [v |-> "invalid", why |-> (IF d.why = "no point of the curve has this ordinate" THEN "R does not decode to a point of the curve"
+                                                         ELSE "non-canonical R (" \o d.why \o ")"), R |-> d.pt, S |-> S]
    ELSE [v |-> "open", why |-> "", R |-> d.pt, S |-> S]
 \* k = H(dom || R || A || PH(M)) interpreted little-endian, reduced modulo L with the claimed quotient
 SgEdK(C, ph, ctx, Rb, Ab, phm) == SgLeInt(SgEdH(C, SgDom(C, ph, ctx) \o Rb \o Ab \o phm))
@@ -346,6 +348,7 @@ ASSUME LET C == EC!EcCurve("Ed25519") IN /\ SgEdDecode(C, <<1>> \o SgZeros(31), 
                                          /\ SgEdDecode(C, <<238>> \o SgRep(255, 30) \o <<127>>, [has |-> TRUE, x |-> <<>>]).why = "ordinate not below p"
 ASSUME LET C == EC!EcCurve("Ed448") IN /\ SgEdDecode(C, <<1>> \o SgZeros(56), [has |-> TRUE, x |-> <<>>]).st = "ok"
                                        /\ SgEdDecode(C, <<1>> \o SgZeros(55) \o <<128>>, [has |-> TRUE, x |-> <<>>]).why = "x = 0 with the sign bit set"
-                                       /\ SgEdDecode(C, <<1>> \o SgZeros(55) \o <<1>>, [has |-> TRUE, x |-> <<>>]).why = "ordinate not below p"
+                                       /\ SgEdDecode(C, <<1>> \o SgZeros(55) \o <<1>>, [has |-> TRUE, x |-> <<>>]).why = "Ed448 final octet with low bits set"
+                                       /\ SgEdDecode(C, SgLeOctets(BN!BnAdd(C.p, <<1>>), 57), [has |-> TRUE, x |-> <<>>]).why = "ordinate not below p"
                                        /\ SgEdDecode(C, SgEdEncode(C, C.G), [has |-> TRUE, x |-> C.G.x]).pt = C.G
 =============================================================================
